@@ -109,6 +109,13 @@ pub fn run_c19tool(ctx: &mut Ctx, from: u64, to: u64) {
             };
             dict.push(mirror::WordWeightRecord { word: w, weights, comment });
         }
+        if !dict.is_empty() && rng.chance(1, 10) {
+            // a record repeated verbatim right after itself
+            let i = rng.below(dict.len());
+            let dup = dict[i].clone();
+            dict.insert(i + 1, dup);
+            ctx.count("dictionaries_with_repeated_record", 1);
+        }
         case.model.dict_model = dict;
         let bytes = case.model.to_bytes();
         let m_in = scratch(ctx, "in.zst");
@@ -308,6 +315,12 @@ fn gen_lines(rng: &mut Rng, texts: &[Vec<char>]) -> Vec<String> {
                 s
             }
             3 => "ｱｲｳ ﾊﾟ /\\ a/b".to_string(),
+            4 | 5 => {
+                // characters the normaliser maps to another type / the same UTF-8 width, next to kana
+                let a = text::alphabet_norm_heavy(rng, 5, i % 2 == 0);
+                let n = rng.urange(2, 30);
+                to_string(&text::text_from(rng, &a, n))
+            }
             _ => {
                 let t: &Vec<char> = rng.pick(texts);
                 to_string(t)
@@ -453,8 +466,18 @@ pub fn run_c20e(ctx: &mut Ctx, from: u64, to: u64) {
         // references
         let mut refs: Vec<fmt::RefSentence> = vec![];
         let identity_only = class == 2;
+        let norm_heavy = class != 2 && rng.chance(1, 2);
+        let heavy = text::alphabet_norm_heavy(&mut rng, 4, k % 2 == 0);
+        ctx.flag("references_with_normaliser_keys_sprinkled", norm_heavy);
         for t in &case.texts {
-            let chars: Vec<char> = if identity_only { t.iter().map(|&c| norm::normalise_char(c)).collect() } else { t.clone() };
+            let chars: Vec<char> = if identity_only {
+                t.iter().map(|&c| norm::normalise_char(c)).collect()
+            } else if norm_heavy {
+                // keep the model's characters but sprinkle normaliser keys (same-width ones, and without ASCII in half the cases)
+                t.iter().map(|&c| if rng.chance(1, 3) { *rng.pick(&heavy) } else { c }).collect()
+            } else {
+                t.clone()
+            };
             let n = chars.len();
             let labels: Vec<u8> = (0..n - 1).map(|_| rng.below(2) as u8).collect();
             let mut tags = vec![vec![]; n];
